@@ -364,6 +364,39 @@ Proof.
   - rewrite expand_box_rep_expr. cbn. destruct cn; reflexivity.
 Qed.
 
+(* the repeat operand is a path to a `const` item of the element type: accepted for every
+   length also when the element type is not Copy; nothing is evaluated at run time, so nothing
+   is logged; usable in a const position *)
+Theorem arr_rep_const_operand_ty w cx v k : 0 <= k ->
+  run crate_decls w cx MArr (InSemi (ConstPath v) (TyLen k)) = Done (VGA k (copies v k), []).
+Proof.
+  intros Hk. unfold run.
+  replace (expand crate_decls MArr (InSemi (ConstPath v) (TyLen k)))
+    with (Some (ConstItem CInputLength (Usize (TyLen k))
+            (LocalFn true (CRef CInputLength)
+               (Call FConstTransmute (Some TyParamN) (SCons Param SNil))
+               (Call FLocal (Some (TyLen k))
+                  (SCons (ArrayRepeat (ConstPath v) (CRef CInputLength)) SNil))))) by reflexivity.
+  cbn.
+  unfold call at 1. cbn [set_fn localfn const_ok]. rewrite (zlen_repeat _ k Hk), Z.eqb_refl.
+  destruct cx; unfold call; cbn [const_ok crate_decls fn_is_const crate_fn_const];
+    unfold copies; rewrite <- (zlen_repeat (VE v) k Hk) at 2 3; rewrite const_transmute_same;
+    rewrite (zlen_repeat _ k Hk); reflexivity.
+Qed.
+
+Theorem arr_rep_const_operand_expr w cx v tn n : 0 <= n ->
+  run crate_decls w cx MArr (InSemi (ConstPath v) (User tn n true))
+  = if csup w n then Done (VGA n (copies v n), []) else CompileError ENoConstLen.
+Proof.
+  intros Hn. unfold run.
+  replace (expand crate_decls MArr (InSemi (ConstPath v) (User tn n true)))
+    with (Some (Call FFromArray None (SCons (ArrayRepeat (ConstPath v) (User tn n true)) SNil))) by reflexivity.
+  cbn. destruct cx; unfold call; cbn [const_ok crate_decls fn_is_const crate_fn_const];
+    unfold const_len; rewrite (zlen_repeat _ n Hn); (destruct (csup w n); [|reflexivity]);
+    unfold copies; rewrite <- (zlen_repeat (VE v) n Hn) at 2 3; rewrite const_transmute_same;
+    rewrite (zlen_repeat _ n Hn); reflexivity.
+Qed.
+
 (* a const item named by a bare path is taken for a type: no arm accepts it *)
 Theorem rep_constpath_rejected w cx m tag v c k :
   m = MArr \/ m = MBoxArr ->
